@@ -71,7 +71,7 @@ PROPS = {
                 quick=['std-lax', 'nostd-lax'], thorough=list(CONFIGS)),
     'C14': dict(workload='C14', oracle=['C14'], project=proj_identity,
                 quick=['std-lax', 'std-strict'], thorough=list(CONFIGS)),
-    'C17': dict(workload='C17', oracle=['C17'], project=proj_identity,
+    'C17': dict(workload='C17', oracle=['C17'], project=proj_identity, spec_ops=('wsverdict',),
                 quick=['std-lax', 'std-strict'], thorough=list(CONFIGS)),
     'C15': dict(miri=True, workload='C15', oracle=['C15'], project=proj_identity,
                 quick=['std-lax', 'nostd-lax'], thorough=['std-lax', 'nostd-lax']),
